@@ -49,6 +49,61 @@ func (OldestFirst) AfterScan(ctx *h.ScanCtx) []h.Violation {
 	return out
 }
 
+// DryOldestFirst: the same rule for a dry-mode group, whose "tainted" nodes are the ones its taint
+// tracker names: the nodes newly tracked in a scan must be the oldest of the untracked, untainted ones.
+type DryOldestFirst struct{}
+
+func (DryOldestFirst) Key() string { return "" }
+func (DryOldestFirst) AfterScan(ctx *h.ScanCtx) []h.Violation {
+	var out []h.Violation
+	for _, g := range ctx.Groups {
+		if !g.Dry {
+			continue
+		}
+		pre, post := map[string]bool{}, map[string]bool{}
+		for _, st := range ctx.Pre {
+			if st.Name == g.Name {
+				for _, n := range st.TaintTracker {
+					pre[n] = true
+				}
+			}
+		}
+		for _, st := range ctx.Post {
+			if st.Name == g.Name {
+				for _, n := range st.TaintTracker {
+					post[n] = true
+				}
+			}
+		}
+		newly := 0
+		for a := range post {
+			if pre[a] {
+				continue
+			}
+			newly++
+			na := nodeByName(g.U, a)
+			if na == nil {
+				out = append(out, h.Violation{Prop: "C08", Sig: "C08/dry/tracked-node-not-untainted",
+					Msg: fmt.Sprintf("scan %d: dry-mode group %s now tracks %s as tainted, which is not an untainted node of the view", ctx.Scan, g.Name, a)})
+				continue
+			}
+			for _, nb := range g.U {
+				if post[nb.Name] {
+					continue
+				}
+				if nb.CreationTimestamp.Time.Before(na.CreationTimestamp.Time) {
+					out = append(out, h.Violation{Prop: "C08", Sig: "C08/dry/older-node-left-untainted",
+						Msg: fmt.Sprintf("scan %d: dry-mode group %s tracks %s (created %s) as tainted while %s (created %s) is strictly older and stays untracked", ctx.Scan, g.Name, a, stamp(na.CreationTimestamp.Time), nb.Name, stamp(nb.CreationTimestamp.Time))})
+				}
+			}
+		}
+		if newly > 0 {
+			ctx.H.Cov["c08.dry-taint-scans"]++
+		}
+	}
+	return out
+}
+
 func stamp(t time.Time) string {
 	if t.IsZero() {
 		return "zero"
@@ -62,14 +117,16 @@ type c08Case struct {
 	K     int   // nodes to taint
 	Min   int   // min_nodes (a binding clamp when K > n - Min)
 	Annot bool  // the first listed node carries the no-delete annotation (it can still be tainted)
+	Dry   bool  // the group runs in dry mode: tainting is recorded in its taint tracker only
 }
 
 func c08Build(p c08Case) *h.Scenario {
 	g := StdGroup("g1")
 	g.Opts.MinNodes = p.Min
 	g.Opts.FastNodeRemovalRate, g.Opts.SlowNodeRemovalRate = p.K, 0
+	g.Opts.DryMode = p.Dry
 	return &h.Scenario{
-		Name: fmt.Sprintf("c08.t%v.p%v.k%d.m%d.a%v", p.Times, p.Perm, p.K, p.Min, p.Annot), Groups: []h.GroupSpec{g}, Slots: 1, Quantum: Q,
+		Name: fmt.Sprintf("c08.t%v.p%v.k%d.m%d.a%v.d%v", p.Times, p.Perm, p.K, p.Min, p.Annot, p.Dry), CovName: "c08.grid", Groups: []h.GroupSpec{g}, Slots: 1, Quantum: Q,
 		FaultOps:         map[string]bool{sim.OpK8sGet: true, sim.OpK8sUpdate: true},
 		MaxEventsPerSlot: 1,
 		Events: func(hh *h.Hist, slot int) []h.Event {
@@ -121,6 +178,21 @@ func c08MultiScan(pattern string) *h.Scenario {
 	g.Opts.MinNodes = 0
 	g.Opts.FastNodeRemovalRate, g.Opts.SlowNodeRemovalRate = 1, 1
 	g.Opts.SoftDeleteGracePeriod, g.Opts.HardDeleteGracePeriod = dur(30), dur(60)
+	if pattern == "down-up-down" {
+		// four nodes; a burst of 2200m on three untainted nodes needs exactly one more node (the tainted
+		// one is untainted, nothing is bought, no cool-down); then the load goes away again
+		return &h.Scenario{Name: "c08.multiscan." + pattern, Groups: []h.GroupSpec{g}, Slots: 6, Quantum: Q, MaxEventsPerSlot: 1, BoundExact: 3,
+			Init: func(hh *h.Hist) {
+				a := InitASGs(hh)[0]
+				for i := 0; i < 4; i++ {
+					hh.W.AddNode(a, sim.NodeOpt{Age: time.Duration(40-2*i) * Q})
+				}
+			},
+			Events: func(hh *h.Hist, slot int) []h.Event {
+				return []h.Event{evBurst(g, 2, 1100), evClearAllPods(g)}
+			},
+		}
+	}
 	return &h.Scenario{Name: "c08.multiscan." + pattern, Groups: []h.GroupSpec{g}, Slots: 6, Quantum: Q, MaxEventsPerSlot: 1, BoundExact: 3,
 		Init: func(hh *h.Hist) {
 			a := InitASGs(hh)[0]
@@ -163,6 +235,7 @@ func c08Scenarios(tier string, shard, shards int) []*h.Scenario {
 	}
 	add(func() *h.Scenario { return c08MultiScan("distinct") })
 	add(func() *h.Scenario { return c08MultiScan("ties") })
+	add(func() *h.Scenario { return c08MultiScan("down-up-down") })
 	for n := 1; n <= maxN; n++ {
 		total := 1
 		for i := 0; i < n; i++ {
@@ -182,6 +255,7 @@ func c08Scenarios(tier string, shard, shards int) []*h.Scenario {
 					if k == 0 {
 						continue
 					}
+					add(func() *h.Scenario { return c08Build(c08Case{Times: times, Perm: pm, K: k, Dry: true}) })
 					switch {
 					case n <= 3 || (tier == "thorough" && n == 4):
 						add(func() *h.Scenario { return c08Build(c08Case{Times: times, Perm: pm, K: k, Min: 1}) })
@@ -203,13 +277,13 @@ func init() {
 	register(&Check{
 		ID:    "C08",
 		Level: "model_checking",
-		Rule: "every assignment of creation times from {zero value, t1, t2, t3} to 1..4 (5 thorough) untainted nodes x every list order x every taint count 0..n x min_nodes 0..2 (a binding clamp) x the first listed node carrying the no-delete annotation or not, each explored with no fault, with a failure at every single get / update position of the taint loop, and with the API rejecting every call on one node; six-scan histories (one taint per scan) with a node rejected for up to three whole scans; " +
+		Rule: "every assignment of creation times from {zero value, t1, t2, t3} to 1..4 (5 thorough) untainted nodes x every list order x every taint count 0..n x min_nodes 0..2 (a binding clamp) x the first listed node carrying the no-delete annotation or not, each explored with no fault, with a failure at every single get / update position of the taint loop, and with the API rejecting every call on one node; the same grid for a dry-mode group (the nodes newly named by its taint tracker); six-scan histories (one taint per scan) with a node rejected for up to three whole scans, and with the load arriving and leaving again (taint, untaint, taint); " +
 			"non-trivial = scans that tainted at least one node; distinct = (times, order, count, fault position) outcome traces",
 		Scenarios:        C08Scenarios,
 		ScenariosSharded: c08Scenarios,
 		ShardByScenario:  true,
-		Monitors:        func() []h.Monitor { return []h.Monitor{OldestFirst{}, NewDecisions()} },
-		Bound:           func(tier string) int { return 1 },
+		Monitors:         func() []h.Monitor { return []h.Monitor{OldestFirst{}, DryOldestFirst{}, NewDecisions()} },
+		Bound:            func(tier string) int { return 1 },
 		Nontrivial: func(hh *h.Hist) []string {
 			for _, l := range hh.Trace {
 				if strings.Contains(l, "k8s.update") {
